@@ -6,6 +6,7 @@ import re
 import sys
 import uuid
 from datetime import date, time
+from decimal import Decimal
 from enum import Enum
 from typing import TYPE_CHECKING, Any, Callable, Iterable, Iterator, Sequence, Type, TypeVar, cast
 
@@ -378,7 +379,7 @@ class Negative(Term):
         compound = isinstance(self.term, (ArithmeticExpression, Criterion)) and not isinstance(
             self.term, (Function, Field)
         )
-        if compound or term_sql.startswith("-"):
+        if compound or _leads_with_minus(self.term):
             # -(a+b) is not -a+b, and "--" would start a comment
             term_sql = "({})".format(term_sql)
         sql = "-{term}".format(term=term_sql)
@@ -636,6 +637,26 @@ class Criterion(Term):
 
     def get_sql(self, ctx: SqlContext) -> str:
         raise NotImplementedError()
+
+
+def _leads_with_minus(term: Any) -> bool:
+    """
+    True if the SQL of the term starts with a minus sign (a negative numeric constant or a unary minus).  Decided on the
+    term, not on its rendered text, so that inline and parameterised renderings are bracketed alike.
+    """
+    if isinstance(term, Negative):
+        return True
+    if isinstance(term, ValueWrapper):
+        value = term.value.value if isinstance(term.value, Enum) else term.value
+        return (
+            isinstance(value, (int, float, Decimal))
+            and not isinstance(value, bool)
+            and str(value).startswith("-")
+        )
+    if isinstance(term, ArithmeticExpression):
+        left_op = getattr(term.left, "operator", None)
+        return not term.left_needs_parens(term.operator, left_op) and _leads_with_minus(term.left)
+    return False
 
 
 def _operand_sql(term: Any, ctx: SqlContext) -> str:
@@ -1268,7 +1289,7 @@ class ArithmeticExpression(Term):
         if self.right_needs_parens(self.operator, right_op) or (
             # "a"--1 would start a comment
             self.operator == Arithmetic.sub
-            and right_sql.startswith("-")
+            and _leads_with_minus(self.right)
         ):
             right_sql = "({})".format(right_sql)
 
